@@ -115,10 +115,18 @@ def first_reaction(vc):
                    z3.ForAll([k], z3.Implies(z3.And(k >= 0, k < nE, rates.get((k,)) > 0), tau <= clock(k))))
     vc.ensure('the step is the earliest of the exponential clocks (scale 1/rate, one per positive rate)', z3.Exists([w], fired))
     vc.ensure('the waiting time is positive', tau > 0)
-    vc.ensure('counts: one entry per event', isinstance(jumps, SMutList) and z3.simplify(to_real(jumps.length) == to_real(nE)))
-    if not isinstance(jumps, SMutList):
+    # the counts may be a python list or a rank-1 array: what matters is one number per event
+    if isinstance(jumps, SMutList):
+        jl, J = jumps.length, (lambda kk: z3.Select(jumps.arr, kk))
+    elif isinstance(jumps, SArr) and jumps.rank == 1:
+        jl, J = jumps.shape[0], (lambda kk: jumps.get((kk,)))
+    elif isinstance(jumps, SList):
+        jl, J = jumps.length, (lambda kk: jumps.element(kk))
+    else:
+        jl = None
+    vc.ensure('counts: one entry per event', jl is not None and z3.simplify(to_real(jl) == to_real(nE)))
+    if jl is None:
         return
-    J = lambda kk: z3.Select(jumps.arr, kk)
     i = z3.Int('is')
     onehot = z3.Exists([w], z3.And(fired,
                                    z3.ForAll([k], z3.Implies(z3.And(k >= 0, k < nE), J(k) == z3.If(k == w, 1, 0)))))
